@@ -217,3 +217,110 @@ def run_ngram(item):
         if bad2 or M2.shape != M.shape:
             out.update(ok=False, where_t="fit.transform", bad_t=bad2, shape_t=list(M2.shape))
     return out
+
+
+# ------------------------------------------------------------------ generic runner (C04 sweeps, C01, C02)
+def build_X(item, corpus=None):
+    fam = item["family"]
+    corpus = item["corpus"] if corpus is None else corpus
+    if fam == "timed":
+        times = item.get("times") or [[i + 1 for i in range(len(d))] for d in corpus]
+        return [[(TOKS[t], float(tm)) for t, tm in zip(d, ts)] for d, ts in zip(corpus, times)]
+    if fam == "multi":
+        return [[[TOKS[t] for t in ms] for ms in d] for d in corpus]
+    return docs_of(corpus)
+
+
+def vocab_doc(item):
+    """a tiny training corpus containing every token (and for ngram every n-gram) of the vocabulary once"""
+    V, fam = item["V"], item["family"]
+    if fam == "multi":
+        return [[[t] for t in range(V)]]
+    if fam == "ngram":
+        import itertools
+        n = item["N"]
+        seq = []
+        for g in itertools.product(range(V), repeat=n):
+            seq.extend(g)
+        # de Bruijn-like: all n-grams occur in the concatenation of all n-tuples
+        return [seq]
+    return [list(range(V))]
+
+
+def run(item):
+    """item: {family, corpus, cfg, V, cells, extra, modes: ["ft","t","small_t"], (times), (N)}"""
+    fam = item["family"]
+    C = _cls(fam)
+    c, V = item["cfg"], item["V"]
+    kw = kwargs_for(c, V, needs_fixed_dict(c) and fam != "ngram")
+    if fam == "timed":
+        for ka in kw["kernel_args"]:
+            ka["delta"] = 1.0
+    if fam == "ngram":
+        kw["ngram_size"] = item["N"]
+    kw.update(item.get("extra") or {})
+    X = build_X(item)
+    exp = expected_cells(item["cells"])
+    out = {"ok": True, "fails": []}
+
+    def rows(m):
+        return {v: k for k, v in m.ngram_label_dictionary_.items()} if fam == "ngram" else None
+
+    for mode in item.get("modes", ["ft"]):
+        m = C(**kw)
+        if mode == "ft":
+            M = m.fit_transform(X)
+        elif mode == "t":
+            r = m.fit(X)
+            if r is not m:
+                out["ok"] = False
+                out["fails"].append({"mode": mode, "fit_returns_self": False})
+            M = m.transform(X)
+        else:
+            small = build_X(dict(item, times=None), vocab_doc(item))
+            m.fit(small)
+            M = m.transform(X)
+        bad = compare(exp, observed_cells(m, M, rows(m)))
+        if bad:
+            out["ok"] = False
+            out["fails"].append({"mode": mode, "bad": bad})
+    return out
+
+
+def chunks(item):
+    """S->C for Chunking.tla: item = {sizes, n, chunks}"""
+    fam = item.get("family", "token")
+    C = _cls(fam)
+    m = C()
+    if fam == "multi":
+        data = [[[0] * s] if s else [[]] for s in item["sizes"]]
+    else:
+        data = [[0] * s for s in item["sizes"]]
+    got = [[int(a), int(b)] for a, b in m._generate_chunk_boundaries(data, item["n"])]
+    return {"ok": got == [list(x) for x in item["chunks"]], "got": got}
+
+
+def scale(item):
+    """production-threshold run against the closed form of CoocAtScale.tla (flat kernel, directional)"""
+    C = _cls("token")
+    import vectorizers.coo_utils as cu
+    L, V, R, D = item["l"], item["v"], item["r"], item["d"]
+    names = ["t%06d" % i for i in range(V)]
+    doc = [names[p % V] for p in range(L)]
+    X = [list(doc) for _ in range(D)]
+    m = C(window_radii=R, window_orientations="directional", normalize_windows=False, kernel_functions="flat",
+          coo_initial_memory=item["mem"], n_threads=item["nt"])
+    M = m.fit_transform(X).tocsr()
+    tl, cl = m.token_label_dictionary_, m.column_label_dictionary_
+    bad, n = [], 0
+    for c in item["cells"]:
+        ra = tl[names[c["a"]]]
+        for blk, key in (("pre_0_", "pre"), ("post_0_", "post")):
+            got = float(M[ra, cl[blk + names[c["b"]]]])
+            n += 1
+            if got != float(c[key]):
+                bad.append([c["a"], c["b"], blk, c[key], got])
+    tot = float(M.sum())
+    return {"ok": not bad and tot == float(item["events"]), "bad": bad[:10], "nbad": len(bad), "cells_checked": n,
+            "total": tot, "expected_total": item["events"], "limit": int(cu.COO_QUICKSORT_LIMIT),
+            "coo_sizes": [int(x) for x in m._coo_sizes]}
